@@ -19,6 +19,8 @@ func clientIndexes(cfg int) []model.ClientIndex {
 		return []model.ClientIndex{{Columns: []model.ColumnKey{{Column: "conf", Key: "k"}}}}
 	case 3:
 		return []model.ClientIndex{{Columns: []model.ColumnKey{{Column: "num"}}}}
+	case 5: // several columns of the same type (zero values keep their position in the tuple)
+		return []model.ClientIndex{{Columns: []model.ColumnKey{{Column: "name"}, {Column: "alt"}}}}
 	case 4: // overlaps a schema index
 		return []model.ClientIndex{{Columns: []model.ColumnKey{{Column: "name"}}}, {Columns: []model.ColumnKey{{Column: "tag"}}}}
 	}
@@ -181,6 +183,34 @@ func checkAgainstScan(rc *cache.RowCache, want []*fix.Row3, cfg int) {
 	}
 }
 
+// checkTupleIndex: the client index over (name, alt) has one entry per distinct pair, holding exactly the rows
+// with that pair.
+func checkTupleIndex(rc *cache.RowCache, want []*fix.Row3) {
+	idx, err := rc.Index("name", "alt")
+	rt.Assert(err == nil, "C05: the two-column client index exists")
+	total := 0
+	for _, list := range idx {
+		total += len(list)
+		first := find(want, list[0])
+		rt.Assert(first != nil, "C05: a two-column index entry leads to a current row")
+		if first == nil {
+			continue
+		}
+		n := 0
+		for _, w := range want {
+			if w.Name == first.Name && w.Alt == first.Alt {
+				n++
+			}
+		}
+		rt.Assert(n == len(list), "C05: a two-column index entry holds exactly the rows with that pair of values")
+		for _, u := range list {
+			o := find(want, u)
+			rt.Assert(o != nil && o.Name == first.Name && o.Alt == first.Alt, "C05: rows under one two-column index entry agree on both columns")
+		}
+	}
+	rt.Assert(total == len(want), "C05: every row is under exactly one entry of the two-column index")
+}
+
 // batch applies a batch of nChanges row changes (create / update / delete, one per row at most) in a chosen
 // order to a cache holding nPre rows, from a legal state to a legal state, through the real RowCache calls
 // that ApplyCacheUpdate makes.
@@ -266,6 +296,9 @@ func batch(nPre, nChanges, cfg int) {
 		want = append(want, clone(r))
 	}
 	checkAgainstScan(rc, want, cfg)
+	if cfg == 5 {
+		checkTupleIndex(rc, want)
+	}
 }
 
 func VerifC05Batch1()   { batch(rt.Choose(3), 1, rt.Choose(5)) }
@@ -275,3 +308,4 @@ func VerifC05Batch2C2() { batch(2, 2, 2) }
 func VerifC05Batch2C3() { batch(2, 2, 3) }
 func VerifC05Batch2C4() { batch(2, 2, 4) }
 func VerifC05Batch3()   { batch(2, 3, 0) }
+func VerifC05Batch2C5() { batch(2, 2, 5) }
